@@ -13,7 +13,7 @@ From DV Require Import Model.Base Model.NameCheck Model.Parser Model.Header Mode
   Proofs.NameIff Proofs.ReadersLabels Proofs.QuestionSpec.
 From Coq Require Import ZifyBool ZifyNat ZifyN.
 
-Definition text_char_ok (c : N) : bool := negb (c =? 46)%N && negb (128 <? c)%N.
+Definition text_char_ok (c : N) : bool := negb (c =? 46)%N && negb (128 <? c)%N && negb (c <? 32)%N && negb (c =? 127)%N && negb (c =? 92)%N.
 Definition tlabel_ok (l : bytes) : Prop := l <> [] /\ length l <= 62 /\ forallb text_char_ok l = true.
 
 (** every label followed by a dot *)
@@ -44,7 +44,7 @@ Section Loop.
   Proof.
     intros Hc Hl. unfold text_char_ok in Hc. cbn [crn_loop].
     destruct (c =? 46)%N eqn:E; [lia|]. destruct (63 - 1 <=? length cur) eqn:E2; [lia|].
-    destruct (128 <? c)%N eqn:E3; [lia|]. reflexivity.
+    destruct (128 <? c)%N eqn:E3; [lia|]. destruct ((c <? 32) || (c =? 127) || (c =? 92))%N eqn:E4; [lia|]. reflexivity.
   Qed.
 
   Lemma crn_label : forall l cs cur out, forallb text_char_ok l = true -> length cur + length l <= 62 ->
@@ -92,11 +92,12 @@ Section Loop.
           split; [cbn [dots flat_map]; cbn [app] in Hc; rewrite Hc; rewrite <- !app_assoc; reflexivity|auto].
       + destruct (63 - 1 <=? length cur) eqn:E2; [discriminate|].
         destruct (128 <? c)%N eqn:E3; [discriminate|].
+        destruct ((c <? 32) || (c =? 127) || (c =? 92))%N eqn:E4; [discriminate|].
         apply IH in H.
         * destruct H as (ls & Hls & Ho & Hc & Hl' & Hok'). exists ls. repeat split; auto.
           rewrite <- Hc. rewrite <- app_assoc. reflexivity.
         * rewrite app_length. cbn. lia.
-        * rewrite forallb_app, Hok. cbn. unfold text_char_ok. rewrite E, E3. reflexivity.
+        * rewrite forallb_app, Hok. cbn. unfold text_char_ok. lia.
   Qed.
 
   (** rejections *)
@@ -109,7 +110,7 @@ Section Loop.
       cbn [crn_loop length Nat.eqb]. replace (46 =? 46)%N with true by reflexivity. cbn [length Nat.eqb]. rewrite Hn1. reflexivity.
     - destruct (c =? 46)%N.
       + destruct (length cur =? 0); [rewrite Hn1; reflexivity|apply IH].
-      + destruct (63 - 1 <=? length cur); [reflexivity|]. destruct (128 <? c)%N; [reflexivity|apply IH].
+      + destruct (63 - 1 <=? length cur); [reflexivity|]. destruct (128 <? c)%N; [reflexivity|]. destruct ((c <? 32) || (c =? 127) || (c =? 92))%N; [reflexivity|apply IH].
   Qed.
 
   Lemma crn_leading_dot b cur out : n <> 1 -> cur = [] -> crn_loop n (46%N :: b) cur out = Err InvalidName.
@@ -125,6 +126,7 @@ Section Loop.
     cbn [forallb] in Hnd. apply andb_true_iff in Hnd. destruct Hnd as [Hc Hnd].
     cbn [app crn_loop]. destruct (c =? 46)%N eqn:E; [cbn in Hc; discriminate|].
     destruct (63 - 1 <=? length cur) eqn:E2; [reflexivity|]. destruct (128 <? c)%N; [reflexivity|].
+    destruct ((c <? 32) || (c =? 127) || (c =? 92))%N; [reflexivity|].
     destruct l as [|c' l']; [cbn in Hlen; lia|].
     apply IH; [exact Hnd|discriminate|rewrite app_length; cbn [length] in *; lia].
   Qed.
@@ -199,10 +201,10 @@ Proof.
     + cbn in Ec. inversion Ec; subst. cbn [length Nat.eqb app]. cbn. intros H. inversion H; subst.
       exists []. split; [constructor|]. right. assert (c = 46%N) by lia. subst c.
       split; [right; split; reflexivity|]. split; [reflexivity|cbn; lia].
-    + cbn [length Nat.leb Nat.sub] in Ec. destruct (128 <? c)%N eqn:E128; [discriminate|]. cbn in Ec. inversion Ec; subst.
+    + cbn [length Nat.leb Nat.sub] in Ec. destruct (128 <? c)%N eqn:E128; [discriminate|]. destruct ((c <? 32) || (c =? 127) || (c =? 92))%N eqn:Ectl; [discriminate|]. cbn in Ec. inversion Ec; subst.
       cbn [length Nat.eqb app]. match goal with |- context [253 <? ?xx] => destruct (253 <? xx) eqn:E3 end; [discriminate|]. intros H. inversion H; subst.
       exists [[c]]. split.
-      { constructor; [|constructor]. repeat split; [discriminate|cbn; lia|]. cbn. unfold text_char_ok. rewrite E46, E128. reflexivity. }
+      { constructor; [|constructor]. repeat split; [discriminate|cbn; lia|]. cbn. unfold text_char_ok. lia. }
       left. split; [discriminate|]. split; [reflexivity|]. unfold labels_flat. cbn [flat_map app length N.of_nat].
       split; [destruct z; reflexivity|]. cbn [app] in E3. destruct z; cbn [zone_or_root app length] in *; lia.
   - apply (crn_sound (length name) H1) in Ec; [|cbn; lia|reflexivity].
@@ -303,4 +305,33 @@ Proof.
     eapply Forall_impl; [|exact Hls]. intros l (_ & _ & Hok). unfold bytes_ok.
     clear -Hok. induction l as [|c l IH]; [constructor|]. cbn [forallb] in Hok. apply andb_true_iff in Hok.
     destruct Hok as [Hc Hl]. constructor; [unfold ldh in Hc; lia|apply IH; exact Hl].
+Qed.
+
+(** ** What the conversion accepts, the parser accepts: every label byte taken from the text is one the parser's name policy takes
+    (no control character, DEL, dot or backslash), so the wire name written for a text without default zone is a name of that policy
+    with exactly the labels of the text.  (Before the repair a97c4c2 of /repo the conversion took control characters and backslashes:
+    gen::query and RR::new then produced packets the parser refuses.) *)
+Lemma text_char_label_char c : text_char_ok c = true -> label_char_ok c = true.
+Proof. unfold text_char_ok, label_char_ok. lia. Qed.
+
+Lemma tlabel_label_ok l : tlabel_ok l -> label_ok l.
+Proof.
+  intros (Hne & Hlen & Hok). unfold label_ok. split; [exact Hne|]. split; [lia|].
+  clear Hne Hlen. induction l as [|c l IH]; [reflexivity|]. cbn [forallb] in *. apply andb_true_iff in Hok. destruct Hok as [Hc Hl].
+  rewrite (text_char_label_char c Hc), (IH Hl). reflexivity.
+Qed.
+
+Theorem from_str_is_policy_name : forall raw name w, copy_raw_name_from_str raw name None = Ok w ->
+  exists ls, Forall label_ok ls /\ w = raw ++ wire_of_labels ls /\ length (wire_of_labels ls) <= 253 /\
+             cname_l (wire_of_labels ls) 0 ls (length (wire_of_labels ls)) /\
+             (name = dotted ls \/ name = dots ls \/ (name = [46%N] /\ ls = [])).
+Proof.
+  intros raw name w H. destruct (from_str_sound raw name None w H) as (ls & Hls & Hcase).
+  assert (Hp : Forall label_ok ls) by (eapply Forall_impl; [|exact Hls]; intros l Hl; apply tlabel_label_ok; exact Hl).
+  exists ls. split; [exact Hp|].
+  assert (Hw : w = raw ++ wire_of_labels ls /\ length (wire_of_labels ls) <= 253 /\ (name = dotted ls \/ name = dots ls \/ (name = [46%N] /\ ls = []))).
+  { destruct Hcase as [(Hne & Hn & Hw & Hl)|(Hn & Hw & Hl)].
+    - cbn [zone_or_root] in Hw, Hl. unfold wire_of_labels. auto.
+    - split; [exact Hw|]. split; [exact Hl|]. destruct Hn as [Hn|Hn]; auto. }
+  destruct Hw as (Hw & Hl & Hn). split; [exact Hw|]. split; [exact Hl|]. split; [apply wire_cname_l; [exact Hp|lia]|exact Hn].
 Qed.
